@@ -309,6 +309,8 @@ def Cluster.getConfigMapCaCert (c : Cluster) (isConfig : Bool) (name ns : Str) :
 structure World where
   configCluster : Str
   clusters      : List Cluster
+  /-- `features.EnableRemoteCredentialsController` at the time the clusters were added (default true). -/
+  remoteCreds   : Bool := true
 
 def findCluster (id : Str) : List Cluster → Option Cluster
   | [] => none
@@ -318,17 +320,32 @@ def findCluster (id : Str) : List Cluster → Option Cluster
 structure Agg where
   controllers : List Cluster
   auth        : Cluster
+  /-- false when the proxy's cluster is a remote cluster whose credentials controller is disabled
+      (`authController == nil`): `Authorize` then fails with `ErrNoAuthController`. -/
+  authOK      : Bool := true
 
-/-- `Multicluster.ForCluster` (remote credential controllers enabled - the default). -/
+/-- `AggregateController.Authorize` as a Boolean. -/
+def Agg.authz (a : Agg) (sa ns : Str) : Bool := a.authOK && a.auth.authz sa ns
+
+/-- The proxy cluster's own controller: consulted first, when the proxy is in a remote cluster whose controller runs. -/
+def ownList (w : World) (id : Str) (c : Cluster) : List Cluster :=
+  if id ≠ w.configCluster ∧ w.remoteCreds = true then [c] else []
+
+/-- The config cluster's controller (always running when the config cluster is configured). -/
+def cfgList (w : World) : List Cluster :=
+  match findCluster w.configCluster w.clusters with
+  | some k => [k]
+  | none => []
+
+/-- `Multicluster.ForCluster`. With remote credential controllers disabled a remote cluster has no controller of
+    its own: lookups go to the config cluster only and nobody can authorise. -/
 def World.forCluster (w : World) (id : Str) : Option Agg :=
   match findCluster id w.clusters with
   | none => none
   | some c =>
-    let own := if id ≠ w.configCluster then [c] else []
-    let cfg := match findCluster w.configCluster w.clusters with
-      | some k => [k]
-      | none => []
-    some ⟨own ++ cfg, c⟩
+    let enabled := decide (id = w.configCluster) || w.remoteCreds
+    if (ownList w id c ++ cfgList w).isEmpty && !enabled then none
+    else some ⟨ownList w id c ++ cfgList w, c, enabled⟩
 
 /-- First successful lookup over the aggregated controllers. -/
 def firstSome (cfgId : Str) (f : Cluster → Bool → Option Val) : List Cluster → Option Val
@@ -462,7 +479,7 @@ def generate (w : World) (cache : Cache) (p : Proxy) (names : List Str) (req : O
           match w.forCluster w.configCluster with
           | none => none
           | some ca =>
-            let rs := filterAuthorized p id (pa.auth.authz id.sa id.ns)
+            let rs := filterAuthorized p id (pa.authz id.sa id.ns)
               (parseResources names id.ns p.cluster w.configCluster)
             some (genLoop w rq pa ca rs { cache := cache })
 
@@ -556,5 +573,33 @@ def gatewayRefs (granted : Grants) (vid : Option Identity) (g : GwConfig) : List
 /-- `mergeGateways(...).VerifiedCertificateReferences` (as a list read as a set). -/
 def verifiedRefs (granted : Grants) (vid : Option Identity) (gws : List GwConfig) : List Str :=
   gws.flatMap (gatewayRefs granted vid)
+
+/-! ### ReferenceGrant evaluation (pilot/pkg/config/kube/gatewaycommon/references.go) -/
+
+/-- One (from, to) pair of a gateway-api `ReferenceGrant` object as `ReferenceGrantsCollection` keeps it.
+    `fromLS = some true/false`: from kind ListenerSet / Gateway; `none`: another or unsupported from kind.
+    `toKind`: Secret / ConfigMap / anything else. `srcNs` is the namespace the object lives in (= the `To`
+    namespace). `name = none`: all names. -/
+structure RefGrant where
+  srcNs  : Str
+  fromLS : Option Bool
+  fromNs : Str
+  toKind : CK
+  name   : Option Str
+  deriving DecidableEq, Repr
+
+/-- `ReferenceGrants.SecretAllowed(kind, resourceName, namespace)`: the resource name is parsed with an empty
+    proxy namespace; a grant must live in the parsed namespace, be for the parsed kind, name the requesting kind
+    and namespace, and allow all names or exactly the parsed name. -/
+def grantEval (grants : List RefGrant) : Grants := fun ls rn ns =>
+  match parseResourceName rn [] [] [] with
+  | none => false
+  | some p =>
+    grants.any fun g =>
+      g.fromLS = some ls && g.fromNs = ns && g.srcNs = p.ns &&
+        ((g.toKind = .secret && p.rtype.ck = .secret) || (g.toKind = .configMap && p.rtype.ck = .configMap)) &&
+        (match g.name with
+         | none => true
+         | some n => n = p.name)
 
 end IstioModel.C11
